@@ -3,8 +3,10 @@
 use crate::outcome::Outcome;
 use crate::Ctx;
 
+pub mod c01;
 pub mod c02;
 pub mod c05;
+pub mod c06;
 pub mod c07;
 pub mod c08;
 pub mod c12;
@@ -40,6 +42,15 @@ pub fn spec(id: &str) -> Option<Spec> {
             min_nontrivial: 500,
             run: c12::run,
         },
+        "C01" => Spec {
+            id: "C01",
+            level: "fault_enumeration",
+            shards_quick: 8,
+            shards_thorough: 14,
+            min_evaluations: 300,
+            min_nontrivial: 100,
+            run: c01::run,
+        },
         "C02" => Spec {
             id: "C02",
             level: "exploration",
@@ -57,6 +68,15 @@ pub fn spec(id: &str) -> Option<Spec> {
             min_evaluations: 500,
             min_nontrivial: 200,
             run: c05::run,
+        },
+        "C06" => Spec {
+            id: "C06",
+            level: "exploration",
+            shards_quick: 4,
+            shards_thorough: 7,
+            min_evaluations: 100,
+            min_nontrivial: 50,
+            run: c06::run,
         },
         "C07" => Spec {
             id: "C07",
